@@ -46,6 +46,7 @@ type Prog struct {
 	Sync     []int `json:"sync,omitempty"`   // choices for the final complete exchange (empty: no exchange)
 	Clocks   []int `json:"clocks,omitempty"` // initial clock time per replica (LogOptions.Clock)
 	Conc     []int `json:"conc,omitempty"`   // LogOptions.Concurrency per replica (0 = default)
+	Preload  []int `json:"preload,omitempty"` // per replica: starts with the first n entries of one long shared history (large logs)
 }
 
 // toggleAC is a permissive access controller that can be told to deny everything (for "appenddenied").
@@ -226,11 +227,24 @@ func New(tb ev.TB, p *Prog) *World {
 		if i < len(p.Clocks) && p.Clocks[i] > 0 {
 			lo.Clock = entry.NewLamportClock(world.Identity(wr).PublicKey, p.Clocks[i])
 		}
+		model := world.Set{}
+		if i < len(p.Preload) && p.Preload[i] > 0 {
+			// a replica of an existing long log: the entries are handed over as LogOptions.Entries (heads are derived)
+			es, raws := world.LongChain(world.Codec(p.Codec), LogID, p.Preload[i])
+			for k, e := range es {
+				if !w.Reg.Has(e.GetHash().String()) {
+					w.Reg.Record(e)
+					w.Store.PutRaw(e.GetHash(), raws[k])
+				}
+				model.Add(e.GetHash().String())
+			}
+			lo.Entries = entry.NewOrderedMapFromEntries(es)
+		}
 		l, err := world.NewLog(w.Store.API(), wr, LogID, w.Order, w.IO, lo)
 		if err != nil {
 			tb.Fatalf("harness: NewLog: %v", err)
 		}
-		w.Reps = append(w.Reps, &Replica{AC: ac, Log: l, Model: world.Set{}, Writer: wr})
+		w.Reps = append(w.Reps, &Replica{AC: ac, Log: l, Model: model, Writer: wr})
 	}
 	return w
 }
